@@ -314,6 +314,9 @@ func (r *bufRun) snapshot(slice bool) *bufObs {
 			o.vals = append(o.vals, v)
 		}
 		o.n = len(raw)
+		for i := range raw {
+			raw[i] = Val{P: -2, I: i} // the snapshot is the caller's own copy: writing to it must not show up anywhere
+		}
 	} else {
 		o.n = r.b.Size()
 		o.ret = simrt.Stamp()
